@@ -40,16 +40,18 @@ TTensordot(a, b, axa, axb) ==
         fb == FreeAxes(Rank(b), axb)
         sh == [i \in 1..(Len(fa) + Len(fb)) |-> IF i <= Len(fa) THEN a.shape[fa[i]] ELSE b.shape[fb[i - Len(fa)]]]
         csh == [i \in 1..Len(axa) |-> a.shape[axa[i]]]
-        IdxA(idx, c) == [k \in 1..Rank(a) |->
-                           IF \E i \in 1..Len(axa) : axa[i] = k
-                           THEN c[CHOOSE i \in 1..Len(axa) : axa[i] = k]
-                           ELSE idx[CHOOSE i \in 1..Len(fa) : fa[i] = k]]
-        IdxB(idx, c) == [k \in 1..Rank(b) |->
-                           IF \E i \in 1..Len(axb) : axb[i] = k
-                           THEN c[CHOOSE i \in 1..Len(axb) : axb[i] = k]
-                           ELSE idx[Len(fa) + (CHOOSE i \in 1..Len(fb) : fb[i] = k)]]
+        \* position tables, computed once: >0 : position among contracted axes, <0 : -(position among free axes)
+        pa == [k \in 1..Rank(a) |-> IF \E i \in 1..Len(axa) : axa[i] = k
+                                    THEN CHOOSE i \in 1..Len(axa) : axa[i] = k
+                                    ELSE -(CHOOSE i \in 1..Len(fa) : fa[i] = k)]
+        pb == [k \in 1..Rank(b) |-> IF \E i \in 1..Len(axb) : axb[i] = k
+                                    THEN CHOOSE i \in 1..Len(axb) : axb[i] = k
+                                    ELSE -(Len(fa) + (CHOOSE i \in 1..Len(fb) : fb[i] = k))]
+        cidx == [n \in 1..Size(csh) |-> Unflat(n - 1, csh)]
+        IdxA(idx, c) == [k \in 1..Rank(a) |-> IF pa[k] > 0 THEN c[pa[k]] ELSE idx[-pa[k]]]
+        IdxB(idx, c) == [k \in 1..Rank(b) |-> IF pb[k] > 0 THEN c[pb[k]] ELSE idx[-pb[k]]]
     IN Mk(sh, LAMBDA idx : GSumSeq([n \in 1..Size(csh) |->
-              GMul(At(a, IdxA(idx, Unflat(n - 1, csh))), At(b, IdxB(idx, Unflat(n - 1, csh))))]))
+              GMul(At(a, IdxA(idx, cidx[n])), At(b, IdxB(idx, cidx[n])))]))
 
 TOuter(a, b) == TTensordot(a, b, <<>>, <<>>)
 
